@@ -9,6 +9,7 @@ package rostdio
 //@ func NewIOReader$1
 //@   note the subscribe function of NewIOReader: read, deliver a copy of what was read (also when it comes with an error), stop at the first error
 //@   props C18
+//@   binds ctx destination reader
 //@   track destination.* loop.*
 //@   ensures [data-returned-with-the-last-read-is-delivered-first|C18] res(reader.Read, 0) > 0 && res(reader.Read, 1) == global_EOF ==> trace(loop.L0, destination.NextWithContext(ctx, _), destination.CompleteWithContext(ctx))
 //@   ensures [data-then-the-reader's-error|C18] res(reader.Read, 0) > 0 && res(reader.Read, 1) != global_EOF ==> trace(loop.L0, destination.NextWithContext(ctx, _), destination.ErrorWithContext(ctx, res(reader.Read, 1)))
@@ -24,6 +25,7 @@ package rostdio
 //@ func NewIOReaderLine$1
 //@   note the subscribe function of NewIOReaderLine: one bufio.Reader.ReadLine per line, each line delivered as a private copy, then the reader's outcome
 //@   props C18
+//@   binds ctx destination reader
 //@   track destination.* loop.* call.NewReader
 //@   ensures [end-of-input-completes|C18] res(call.Reader.ReadLine, 2) == global_EOF ==> trace(call.NewReader(reader), loop.L0, destination.CompleteWithContext(ctx))
 //@   ensures [a-read-error-is-forwarded|C18] res(call.Reader.ReadLine, 2) != global_EOF ==> trace(call.NewReader(reader), loop.L0, destination.ErrorWithContext(ctx, res(call.Reader.ReadLine, 2)))
